@@ -1075,7 +1075,7 @@ func main() {
 	r.Set("id_order_variants", len(variants))
 	r.Set("info_rebuilds_leaving_an_expired_object_out_of_the_metabase", stat.expiredLeftOut.Load())
 	r.Set("stored_sets_whose_incremental_status_depends_on_arrival_order", stat.incArrivalDependent.Load())
-	r.Rule("scenario (5-7 objects: regular +- expiration, v2/v1 split children with parent header, LINK, tombstones, locks +- expiration) x ID-order variant (association object IDs before/after their targets) x arrival order (quick: natural, tombstones-before-locks, reversed; thorough: all permutations; a blob exists iff the real metabase accepted the put) x resync epoch x EVERY permutation of the blob enumeration order; evaluation = one ResyncFromBlobstor + status vector (Exists/Get/IsLocked for every universe address incl. virtual parents and an absent target) + GetGarbage/Delete loop; non-trivial = distinct (scenario, stored set, epoch, vector) with at least one removed/expired/locked status")
+	r.Rule("scenario (5-7 objects: regular +- expiration, v2/v1 split children with parent header, LINK, tombstones, locks +- expiration; incl. one set per {lock on first child, lock on last child, lock on parent, expired lock on parent} x {tombstone on the parent}) x ID-order variant (association object IDs before/after their targets) x arrival order (quick: natural, tombstones-before-locks, reversed; thorough: all permutations; a blob exists iff the real metabase accepted the put) x resync epoch x EVERY permutation of the blob enumeration order; evaluation = one ResyncFromBlobstor + status vector (Exists/Get/IsLocked for every universe address incl. virtual parents and an absent target) + GetGarbage/Delete loop; non-trivial = distinct (scenario, stored set, epoch, vector) with at least one removed/expired/locked status")
 	r.Exhaustive(exhaustive)
 	r.Assume("a single resync batch (resyncBatchSize=1000 > 7 blobs); container removal is not recorded in blobs and therefore not part of the rebuilt state",
 		"status = class of Exists/Get error + IsLocked; counters and search results after resync are not compared (property speaks of statuses)")
